@@ -181,6 +181,11 @@ func (g refGen) pick(want string, bad int, label string) Ref {
 	case "task":
 		good = tasks
 		wrong = [][]string{epics, pr, {"000000"}}
+		if len(tasks) > 0 {
+			// other spellings of a live id name nothing (ids are exact, upper-case strings)
+			x := tasks[len(tasks)-1]
+			wrong = append(wrong, []string{strings.ToLower(x), " " + x, x + " "})
+		}
 	case "epic":
 		good = epics
 		wrong = [][]string{tasks, pr, {"000000"}}
@@ -329,7 +334,7 @@ func spoil(t *rapid.T, g refGen, op *Op) {
 	if op.Mode != "json" {
 		switch between(t, 0, 2, "spoil.flag") {
 		case 0:
-			op.State = sp("finished")
+			op.State = sp(oneOf(t, []string{"finished", "Done", "cancelled", "in-progress"}, "spoil.state"))
 		case 1:
 			r := Lit("000000")
 			op.Epic = &r
@@ -347,7 +352,7 @@ func spoil(t *rapid.T, g refGen, op *Op) {
 	case 0:
 		op.ExtraKey = "priority"
 	case 1:
-		op.State = sp("finished")
+		op.State = sp(oneOf(t, []string{"finished", "Done", "cancelled", " done ", "in_progress", "TODO", "doing "}, "spoil.state"))
 	case 2:
 		r := Lit("000000")
 		op.Epic = &r
